@@ -73,7 +73,7 @@ def match_known(known, r):
             env = dict(r.get('cfg') or {})
             env.update({'model': r.get('model') or {}, 'replay': r.get('replay') or {}})
             try:
-                if not eval(pred, {'__builtins__': {'len': len, 'min': min, 'max': max, 'any': any, 'all': all, 'str': str, 'int': int, 'sum': sum}}, env):
+                if not eval(pred, {'__builtins__': {'len': len, 'min': min, 'max': max, 'any': any, 'all': all, 'str': str, 'int': int, 'sum': sum, 'sorted': sorted, 'set': set}}, env):
                     continue
             except Exception:
                 continue
@@ -97,6 +97,9 @@ def finish(prop, tier, results, t0, level='proof', checker_cmd=None, functions=N
     os.makedirs(EVID, exist_ok=True)
     rdir = os.path.join(REPLAY, prop)
     os.makedirs(rdir, exist_ok=True)
+    for old in os.listdir(rdir):
+        try: os.unlink(os.path.join(rdir, old))
+        except OSError: pass
     violations = []; known_seen = {}; undecided = []; crashes = []
     discharged = 0; total = 0
     by_backend = {}; by_mode = {}; solver_time = 0.0
